@@ -872,8 +872,10 @@ class Compiler:
       self.label()
 
   def s_Try(self, s):
-    if s.finalbody or s.orelse:
-      raise TranslationError("try/finally or try/else")
+    if s.orelse:
+      raise TranslationError("try/else")
+    if s.finalbody:
+      return self.try_finally(s)
     hs = []
     for h in s.handlers:
       if h.type is None:
@@ -908,18 +910,61 @@ class Compiler:
     if self.dangling:
       self.label()
 
+  def try_finally(self, s):
+    """try: ... [except ...] finally: F  -  F runs on normal completion, when an exception passes through, and before a return / break /
+    continue that leaves the block"""
+    fr = self.frames[-1]
+    per_exc = {}
+    entry = ("<with>", per_exc, None, len(self.loops))          # same propagation mechanics as a with-block
+    fentry = ("<finally>", per_exc, s.finalbody, len(self.loops))
+    self.handlers.append(entry)
+    fr.withs = getattr(fr, "withs", [])
+    fr.withs.append(fentry)
+    inner = ast.Try(body=s.body, handlers=s.handlers, orelse=[], finalbody=[]) if s.handlers else None
+    self.dyn += 1
+    if inner is not None:
+      ast.copy_location(inner, s)
+      self.s_Try(inner)
+    else:
+      self.block(s.body)
+    self.dyn -= 1
+    fr.withs.pop()
+    self.handlers.pop()
+    ends = []
+    if self.dangling:
+      self.block(s.finalbody)
+      ends = list(self.dangling)
+    for exname, edges in per_exc.items():
+      if not edges:
+        continue
+      self.dangling = edges
+      self.label()
+      self.block(s.finalbody)
+      if self.dangling:
+        self.raise_exc(exname)
+    self.dangling = ends
+    if self.dangling:
+      self.label()
+
   def s_With(self, s):
     if len(s.items) != 1:
       raise TranslationError("with statement with several items")
     cm = self.expr(s.items[0].context_expr)
-    if not (isinstance(cm, SO) and cm.model.cls == "RLock"):
+    if isinstance(cm, SO) and cm.model.cls == "RLock":
+      lock_target = cm.model
+    elif isinstance(cm, SE) and isinstance(cm.typ, tuple) and cm.typ == ("obj", "RLock"):
+      # a lock that was stored in a shared attribute at run time: remember which one we took
+      lv = self.var("lockref")
+      self.assign(lv, cm.x)
+      lock_target = ("RLock", V(lv))
+    else:
       raise TranslationError("with statement on %r (only locks are modelled)" % (cm,))
     if s.items[0].optional_vars is not None:
       raise TranslationError("with ... as")
-    self.op(cm.model, "acquire", [])
+    self.op(lock_target, "acquire", [])
     per_exc = {}
     fr = self.frames[-1]
-    entry = ("<with>", per_exc, cm.model, len(self.loops))
+    entry = ("<with>", per_exc, lock_target, len(self.loops))
     self.handlers.append(entry)
     fr.withs = getattr(fr, "withs", [])
     fr.withs.append(entry)
@@ -928,26 +973,39 @@ class Compiler:
     self.handlers.pop()
     ends = []
     if self.dangling:
-      self.op(cm.model, "release", [], want=0)
+      self.op(lock_target, "release", [], want=0)
       ends = list(self.dangling)
     for exname, edges in per_exc.items():
       if not edges:
         continue
       self.dangling = edges
       self.label()
-      self.op(cm.model, "release", [], want=0)
+      self.op(lock_target, "release", [], want=0)
       self.raise_exc(exname)
     self.dangling = ends
     if self.dangling:
       self.label()
 
   def release_withs(self, upto_loops=None):
-    """return / break / continue leave the enclosing with-blocks of this frame: release their locks first"""
+    """return / break / continue leave the enclosing with-blocks and try/finally blocks of this frame: release their locks / run
+    their finally bodies first (innermost first)"""
     fr = self.frames[-1]
-    for entry in reversed(getattr(fr, "withs", [])):
+    entries = list(getattr(fr, "withs", []))
+    for k in range(len(entries) - 1, -1, -1):
+      entry = entries[k]
       if upto_loops is not None and entry[3] < upto_loops:
         break
-      self.op(entry[2], "release", [], want=0)
+      if entry[0] == "<with>":
+        self.op(entry[2], "release", [], want=0)
+      else:
+        # a finally body: compiled here with the enclosing cleanups only
+        saved = fr.withs
+        fr.withs = entries[:k]
+        saved_handlers = self.handlers
+        self.handlers = [h for h in self.handlers if h is not entry]
+        self.block(entry[2])
+        self.handlers = saved_handlers
+        fr.withs = saved
 
   # ---- expressions ---------------------------------------------------------------------------------------------
   def cond(self, e):
